@@ -4,10 +4,11 @@ which sets of keyword / field names `vector.obj`, `VectorObject{2,3,4}D` / `Mome
 `vector.array`, `vector.zip` and `vector.Array` accept, which vector type they build from them, and WHICH
 supplied name ends up in which stored coordinate slot.
 
-Sources (pinned tree /repo):
-* `src/vector/backends/object.py`  `obj` (l. 3081-3203), `_gather_coordinates` (l. 2107-2190),
-  `VectorObject2D.__init__` (l. 658-684), `VectorObject3D.__init__` (l. 1022-1072),
-  `VectorObject4D.__init__` (l. 1681-1767); the `MomentumObject*` classes inherit `__init__`.
+Sources (tree /repo at cc3adc8, i.e. AFTER the fixes 572f8c1 `obj` rejects E+e / M+m, 0f97320 classes reject repeated
+spellings, cc3adc8 `VectorObject4D` type check):
+* `src/vector/backends/object.py`  `obj` (l. 3099-3221), `_gather_coordinates` (l. 2125-2208),
+  `VectorObject2D.__init__` (l. 658-689), `VectorObject3D.__init__` (l. 1027-1082),
+  `VectorObject4D.__init__` (l. 1691-1789); the `MomentumObject*` classes inherit `__init__`.
 * `src/vector/backends/numpy.py`  `array` (l. 2092-2166), `_array_from_columns` (l. 116-166),
   `VectorNumpy{2,3,4}D.__array_finalize__`, `MomentumNumpy{2,3,4}D.__array_finalize__`.
 * `src/vector/backends/awkward_constructors.py`  `_check_names` (l. 18-206), `zip`, `Array`.
@@ -242,24 +243,24 @@ def Doc (s : List CN) : Option CtorRes := docB (.ofList s)
 /-! ## `vector.obj(**coordinates)` -/
 
 /-- one iteration of `for x in list(coordinates): if x not in generic_coordinates: generic_coordinates[x] = coordinates.pop(x)`
-(l. 3188-3190) for the generic key `k`: new value of `generic_coordinates[k]`, and "`k` stays in `coordinates`". -/
+(l. 3206-3208) for the generic key `k`: new value of `generic_coordinates[k]`, and "`k` stays in `coordinates`". -/
 def loopKey (present : Bool) (k : CN) (g : Option CN) : Option CN × Bool :=
   if present then (match g with | none => (some k, false) | some v => (some v, true)) else (g, false)
 
-/-- `generic_coordinates` restricted to the keys x, y, rho, phi after l. 3158-3190; `left` = something stays in `coordinates` -/
+/-- `generic_coordinates` restricted to the keys x, y, rho, phi after l. 3176-3208; `left` = something stays in `coordinates` -/
 structure AzGen where (x y rho phi : Option CN) (left : Bool)
 
 def objAzPop (a : AzN) : AzGen :=
-  let gx := if a.px then some CN.px else none        -- l. 3158 `if "px" in coordinates: generic_coordinates["x"] = coordinates.pop("px")`
-  let gy := if a.py then some CN.py else none        -- l. 3161
-  let gr := if a.pt then some CN.pt else none        -- l. 3164
-  let (gx, lx) := loopKey a.x .x gx                  -- l. 3188-3190
+  let gx := if a.px then some CN.px else none        -- l. 3176 `if "px" in coordinates: generic_coordinates["x"] = coordinates.pop("px")`
+  let gy := if a.py then some CN.py else none        -- l. 3179
+  let gr := if a.pt then some CN.pt else none        -- l. 3182
+  let (gx, lx) := loopKey a.x .x gx                  -- l. 3206-3208
   let (gy, ly) := loopKey a.y .y gy
   let (gr, lr) := loopKey a.rho .rho gr
   let (gp, lp) := loopKey a.phi .phi none
   ⟨gx, gy, gr, gp, lx || ly || lr || lp⟩
 
-/-- `_gather_coordinates`, azimuthal part (l. 2123-2132): the azimuthal object (if any) and "some of the keys x, y, rho, phi
+/-- `_gather_coordinates`, azimuthal part (l. 2141-2150): the azimuthal object (if any) and "some of the keys x, y, rho, phi
 remains in `coordinates`". -/
 def objAzGather (g : AzGen) : Except CtorErr (Option AzC × Bool) :=
   match g.x, g.y with
@@ -273,8 +274,8 @@ def objAzGather (g : AzGen) : Except CtorErr (Option AzC × Bool) :=
       else .ok (some (.rhophi, vr, vp), false)
     | _, _ => .ok (none, g.x.isSome || g.y.isSome || g.rho.isSome || g.phi.isSome)
 
-/-- azimuthal names of `vector.obj`: `none` = a `TypeError` is raised because of them (l. 3191 duplicate through alias,
-l. 2125/2129, unconsumed key at l. 2158, or `azimuthal is None`) -/
+/-- azimuthal names of `vector.obj`: `none` = a `TypeError` is raised because of them (l. 3209 duplicate through alias,
+l. 2143/2147, unconsumed key at l. 2176, or `azimuthal is None`) -/
 def objAz (a : AzN) : Option AzC :=
   let g := objAzPop a
   if g.left then none else
@@ -285,13 +286,13 @@ def objAz (a : AzN) : Option AzC :=
 structure LonGen where (z theta eta : Option CN) (left : Bool)
 
 def objLonPop (l : LonN) : LonGen :=
-  let gz := if l.pz then some CN.pz else none        -- l. 3167
+  let gz := if l.pz then some CN.pz else none        -- l. 3185
   let (gz, lz) := loopKey l.z .z gz
   let (gth, lth) := loopKey l.theta .theta none
   let (ge, le) := loopKey l.eta .eta none
   ⟨gz, gth, ge, lz || lth || le⟩
 
-/-- `_gather_coordinates`, longitudinal part (l. 2138-2147) -/
+/-- `_gather_coordinates`, longitudinal part (l. 2156-2165) -/
 def objLonGather (g : LonGen) : Except CtorErr (Option LonC) :=
   match g.z with
   | some v => if g.theta.isSome || g.eta.isSome then .error .typeError else .ok (some (.z, v))
@@ -310,25 +311,28 @@ def objLon (l : LonN) : Option (Option LonC) :=
   | .ok c => some c
   | .error _ => none
 
-/-- `generic_coordinates` restricted to the keys t, tau (+ `stray` = a key "energy" or "mass" was created by the loop of l. 3188,
-which `_gather_coordinates` never consumes) -/
+/-- `generic_coordinates` restricted to the keys t, tau (+ `stray` = a key "e", "energy", "m" or "mass" was created by the loop
+of l. 3206, which `_gather_coordinates` never consumes) -/
 structure TmpGen where (t tau : Option CN) (left : Bool) (stray : Bool)
 
-def objTmpPop (n : TmpN) : TmpGen :=
-  let gt := if n.E then some CN.E else none                      -- l. 3170
-  let gt := if n.e then some CN.e else gt                        -- l. 3173  (overwrites the value popped for "E")
-  let (gt, energyStays) :=                                       -- l. 3176 `if "energy" in coordinates and "t" not in generic_coordinates`
-    if n.energy then (match gt with | none => (some CN.energy, false) | some v => (some v, true)) else (gt, false)
-  let gtau := if n.M then some CN.M else none                    -- l. 3179
-  let gtau := if n.m then some CN.m else gtau                    -- l. 3182
-  let (gtau, massStays) :=                                       -- l. 3185
-    if n.mass then (match gtau with | none => (some CN.mass, false) | some v => (some v, true)) else (gtau, false)
-  let (gt, lt) := loopKey n.t .t gt                              -- l. 3188-3190
-  let (gtau, ltau) := loopKey n.tau .tau gtau
-  -- a remaining "energy"/"mass" is NOT a key of generic_coordinates, so the loop moves it there under its own name
-  ⟨gt, gtau, lt || ltau, energyStays || massStays⟩
+/-- `if "<k>" in coordinates and "<generic>" not in generic_coordinates: generic_coordinates["<generic>"] = coordinates.pop("<k>")`:
+new value of the generic key, and "`k` stays in `coordinates`" -/
+def guardedPop (present : Bool) (k : CN) (g : Option CN) : Option CN × Bool :=
+  if present then (match g with | none => (some k, false) | some v => (some v, true)) else (g, false)
 
-/-- `_gather_coordinates`, temporal part (l. 2151-2156) -/
+def objTmpPop (n : TmpN) : TmpGen :=
+  let gt := if n.E then some CN.E else none                      -- l. 3188
+  let (gt, eStays) := guardedPop n.e .e gt                       -- l. 3191 `if "e" in coordinates and "t" not in generic_coordinates`
+  let (gt, energyStays) := guardedPop n.energy .energy gt        -- l. 3194
+  let gtau := if n.M then some CN.M else none                    -- l. 3197
+  let (gtau, mStays) := guardedPop n.m .m gtau                   -- l. 3200
+  let (gtau, massStays) := guardedPop n.mass .mass gtau          -- l. 3203
+  let (gt, lt) := loopKey n.t .t gt                              -- l. 3206-3208
+  let (gtau, ltau) := loopKey n.tau .tau gtau
+  -- a remaining "e"/"energy"/"m"/"mass" is NOT a key of generic_coordinates, so the loop moves it there under its own name
+  ⟨gt, gtau, lt || ltau, eStays || energyStays || mStays || massStays⟩
+
+/-- `_gather_coordinates`, temporal part (l. 2169-2174) -/
 def objTmpGather (g : TmpGen) : Except CtorErr (Option TmpC) :=
   match g.t with
   | some v => if g.tau.isSome then .error .typeError else .ok (some (.t, v))
@@ -346,40 +350,48 @@ def objTmp (t : TmpN) : Option (Option TmpC) :=
 
 /-- `vector.obj` on a set of names -/
 def objB (n : NS) : Except CtorErr CtorRes :=
-  if n.other then .error .typeError else         -- an unknown key is moved to generic_coordinates (l. 3188) and never consumed (l. 2158)
+  if n.other then .error .typeError else         -- an unknown key is moved to generic_coordinates (l. 3206) and never consumed (l. 2176)
   match objAz n.a, objLon n.l, objTmp n.t with
-  | some (az, a1, a2), some none, some none => .ok ⟨n.anyMom, az, a1, a2, none, none⟩            -- l. 2159
-  | some (az, a1, a2), some (some l), some none => .ok ⟨n.anyMom, az, a1, a2, some l, none⟩      -- l. 2161
-  | some (az, a1, a2), some (some l), some (some t) => .ok ⟨n.anyMom, az, a1, a2, some l, some t⟩ -- l. 2163
-  | _, _, _ => .error .typeError                                                                 -- l. 2168 (or any earlier raise)
+  | some (az, a1, a2), some none, some none => .ok ⟨n.anyMom, az, a1, a2, none, none⟩            -- l. 2177
+  | some (az, a1, a2), some (some l), some none => .ok ⟨n.anyMom, az, a1, a2, some l, none⟩      -- l. 2179
+  | some (az, a1, a2), some (some l), some (some t) => .ok ⟨n.anyMom, az, a1, a2, some l, some t⟩ -- l. 2181
+  | _, _, _ => .error .typeError                                                                 -- l. 2186 (or any earlier raise)
 
 def objModel (s : List CN) : Except CtorErr CtorRes := objB (.ofList s)
 
 /-! ## `VectorObject{2,3,4}D(**kwargs)`, `MomentumObject{2,3,4}D(**kwargs)` -/
 
-/-- the later of the candidates w.r.t. the keyword order `pr` (position in the call) -/
-def pickMax (pr : CN → Nat) : List CN → Option CN
-  | [] => none
-  | k :: rest => match pickMax pr rest with
-    | none => some k
-    | some k' => if pr k < pr k' then some k' else some k
+/-- two of the supplied names are spellings of the same coordinate.  For the classes: the renaming loop
+`for k, v in kwargs.copy().items(): kwargs.pop(k); generic = _repr_momentum_to_generic.get(k, k); if generic in kwargs: raise TypeError`
+(l. 664-671, 1036-1043, 1701-1708) raises exactly in this case, whatever the keyword order: at the turn of the FIRST of two
+such names the generic key is still present as a not yet processed original key or is absent, at the turn of the SECOND it
+has been set (or is the other, still unprocessed, generic name).  For `vector.array`: the renaming
+`self.dtype.names = tuple(_repr_momentum_to_generic.get(x, x) …)` produces a repeated field name. -/
+def AzN.dup (a : AzN) : Bool := (a.x && a.px) || (a.y && a.py) || (a.rho && a.pt)
+def LonN.dup (l : LonN) : Bool := l.z && l.pz
+def TmpN.dup (t : TmpN) : Bool :=
+  (t.t && (t.E || t.e || t.energy)) || (t.E && (t.e || t.energy)) || (t.e && t.energy)
+  || (t.tau && (t.M || t.m || t.mass)) || (t.M && (t.m || t.mass)) || (t.m && t.mass)
+def NS.synDup (n : NS) : Bool := n.a.dup || n.l.dup || n.t.dup
 
-/-- `kwargs` after `for k, v in kwargs.copy().items(): kwargs.pop(k); kwargs[_repr_momentum_to_generic.get(k, k)] = v`
-(l. 664-666): the generic key `c` is present iff some spelling of `c` was given, and holds the value of the LAST one. -/
+/-- the supplied name stored under the generic key `c` (any spelling; unique when there is no repeated spelling) -/
+def fieldOf (has : CN → Bool) (c : Coord) : Option CN := c.syn.find? has
+
+/-- `kwargs` after the renaming loop (when it does not raise): the generic key `c` is present iff a spelling of `c` was given -/
 structure KW where (x y rho phi z theta eta t tau : Option CN)
   deriving DecidableEq, Repr
 
-def kwOf (n : NS) (pr : CN → Nat) : KW :=
-  let g := fun (c : Coord) => pickMax pr (c.syn.filter n.has)
-  ⟨g .x, g .y, g .rho, g .phi, g .z, g .theta, g .eta, g .t, g .tau⟩
+def kwOf (n : NS) : KW :=
+  ⟨fieldOf n.a.has .x, fieldOf n.a.has .y, fieldOf n.a.has .rho, fieldOf n.a.has .phi,
+   fieldOf n.l.has .z, fieldOf n.l.has .theta, fieldOf n.l.has .eta, fieldOf n.t.has .t, fieldOf n.t.has .tau⟩
 
-/-- l. 671-682 -/
+/-- l. 676-687 -/
 def class2 (mom : Bool) : KW → Except CtorErr CtorRes
   | ⟨some vx, some vy, none, none, none, none, none, none, none⟩ => .ok ⟨mom, .xy, vx, vy, none, none⟩
   | ⟨none, none, some vr, some vp, none, none, none, none, none⟩ => .ok ⟨mom, .rhophi, vr, vp, none, none⟩
   | _ => .error .typeError
 
-/-- l. 1039-1068 -/
+/-- l. 1049-1078 -/
 def class3 (mom : Bool) : KW → Except CtorErr CtorRes
   | ⟨some vx, some vy, none, none, some vz, none, none, none, none⟩ => .ok ⟨mom, .xy, vx, vy, some (.z, vz), none⟩
   | ⟨some vx, some vy, none, none, none, none, some ve, none, none⟩ => .ok ⟨mom, .xy, vx, vy, some (.eta, ve), none⟩
@@ -389,7 +401,7 @@ def class3 (mom : Bool) : KW → Except CtorErr CtorRes
   | ⟨none, none, some vr, some vp, none, some vth, none, none, none⟩ => .ok ⟨mom, .rhophi, vr, vp, some (.theta, vth), none⟩
   | _ => .error .typeError
 
-/-- l. 1702-1767 -/
+/-- l. 1720-1785 -/
 def class4 (mom : Bool) : KW → Except CtorErr CtorRes
   | ⟨some vx, some vy, none, none, some vz, none, none, some vt, none⟩ => .ok ⟨mom, .xy, vx, vy, some (.z, vz), some (.t, vt)⟩
   | ⟨some vx, some vy, none, none, none, none, some ve, some vt, none⟩ => .ok ⟨mom, .xy, vx, vy, some (.eta, ve), some (.t, vt)⟩
@@ -405,32 +417,22 @@ def class4 (mom : Bool) : KW → Except CtorErr CtorRes
   | ⟨none, none, some vr, some vp, none, some vth, none, none, some vt⟩ => .ok ⟨mom, .rhophi, vr, vp, some (.theta, vth), some (.tau, vt)⟩
   | _ => .error .typeError
 
-/-- the object classes on a set of names given with their keyword positions `pr`; `mom` = it is a `MomentumObject` class
-(the flavor of the result is the class, whatever the spelling of the names).  `dim ∉ {2,3,4}`: no such class. -/
-def classB (dim : Nat) (mom : Bool) (n : NS) (pr : CN → Nat) : Except CtorErr CtorRes :=
+/-- the object classes on a set of keyword names (the order of the keywords is immaterial); `mom` = it is a `MomentumObject`
+class (the flavor of the result is the class, whatever the spelling of the names).  `dim ∉ {2,3,4}`: no such class. -/
+def classB (dim : Nat) (mom : Bool) (n : NS) : Except CtorErr CtorRes :=
   if n.other then .error .typeError else       -- an unknown key stays in `set(kwargs)`: no row matches
+  if n.synDup then .error .typeError else      -- l. 667 "duplicate coordinates (through momentum-aliases)"
   match dim with
-  | 2 => class2 mom (kwOf n pr)
-  | 3 => class3 mom (kwOf n pr)
-  | 4 => class4 mom (kwOf n pr)
+  | 2 => class2 mom (kwOf n)
+  | 3 => class3 mom (kwOf n)
+  | 4 => class4 mom (kwOf n)
   | _ => .error .typeError
 
-/-- `VectorObject<dim>D(**kw)` (`mom = false`) / `MomentumObject<dim>D(**kw)` (`mom = true`); `s` = the keyword names in call order -/
+/-- `VectorObject<dim>D(**kw)` (`mom = false`) / `MomentumObject<dim>D(**kw)` (`mom = true`); `s` = the keyword names -/
 def classModel (dim : Nat) (mom : Bool) (s : List CN) : Except CtorErr CtorRes :=
-  classB dim mom (.ofList s) (fun k => s.idxOf k)
+  classB dim mom (.ofList s)
 
 /-! ## `vector.array({name: column, …})` -/
-
-/-- does the renaming `self.dtype.names = tuple(_repr_momentum_to_generic.get(x, x) …)` produce a repeated field name
-(NumPy raises `ValueError: Duplicate field names given.`) -/
-def AzN.dup (a : AzN) : Bool := (a.x && a.px) || (a.y && a.py) || (a.rho && a.pt)
-def LonN.dup (l : LonN) : Bool := l.z && l.pz
-def TmpN.dup (t : TmpN) : Bool :=
-  (t.t && (t.E || t.e || t.energy)) || (t.E && (t.e || t.energy)) || (t.e && t.energy)
-  || (t.tau && (t.M || t.m || t.mass)) || (t.M && (t.m || t.mass)) || (t.m && t.mass)
-
-/-- the field called `c` after the renaming (any spelling; unique when there is no duplicate) -/
-def fieldOf (has : CN → Bool) (c : Coord) : Option CN := c.syn.find? has
 
 /-- `_has(self, ("x","y"))` … `elif _has(self, ("rho","phi"))` -/
 def npAz (a : AzN) : Option AzC :=
@@ -575,7 +577,7 @@ def Dict.set (d : Dict) (k v : CN) : Dict :=
 def Dict.pop (d : Dict) (k : CN) : Dict := d.filter (·.1 != k)
 def Dict.keysAre (d : Dict) (ks : List CN) : Bool := d.length == ks.length && ks.all d.has
 
-/-- `_gather_coordinates` (object.py l. 2107-2190); `other` = an unknown key is in `coordinates` -/
+/-- `_gather_coordinates` (object.py l. 2125-2208); `other` = an unknown key is in `coordinates` -/
 def gather (mom : Bool) (coordinates : Dict) (other : Bool) : Except CtorErr CtorRes := Id.run do
   let mut c := coordinates
   let mut az : Option AzC := none
@@ -608,7 +610,7 @@ def gather (mom : Bool) (coordinates : Dict) (other : Bool) : Except CtorErr Cto
     | _, _, _ => pure ()
   return .error .typeError
 
-/-- `obj(**coordinates)` (object.py l. 3152-3203) -/
+/-- `obj(**coordinates)` (object.py l. 3170-3221) -/
 def obj (s : List CN) (other : Bool := false) : Except CtorErr CtorRes := Id.run do
   let mut coordinates : Dict := s.map (fun k => (k, k))
   let mut generic : Dict := []
@@ -623,13 +625,13 @@ def obj (s : List CN) (other : Bool := false) : Except CtorErr CtorRes := Id.run
     isMomentum := true; generic := generic.set .z (coordinates.get .pz); coordinates := coordinates.pop .pz
   if coordinates.has .E then
     isMomentum := true; generic := generic.set .t (coordinates.get .E); coordinates := coordinates.pop .E
-  if coordinates.has .e then
+  if coordinates.has .e && !generic.has .t then
     isMomentum := true; generic := generic.set .t (coordinates.get .e); coordinates := coordinates.pop .e
   if coordinates.has .energy && !generic.has .t then
     isMomentum := true; generic := generic.set .t (coordinates.get .energy); coordinates := coordinates.pop .energy
   if coordinates.has .M then
     isMomentum := true; generic := generic.set .tau (coordinates.get .M); coordinates := coordinates.pop .M
-  if coordinates.has .m then
+  if coordinates.has .m && !generic.has .tau then
     isMomentum := true; generic := generic.set .tau (coordinates.get .m); coordinates := coordinates.pop .m
   if coordinates.has .mass && !generic.has .tau then
     isMomentum := true; generic := generic.set .tau (coordinates.get .mass); coordinates := coordinates.pop .mass
@@ -644,7 +646,9 @@ def cls (dim : Nat) (mom : Bool) (s : List CN) (other : Bool := false) : Except 
   let mut kwargs : Dict := s.map (fun k => (k, k))
   for (k, v) in kwargs do
     kwargs := kwargs.pop k
-    kwargs := kwargs.set k.coord.cn v
+    let generic := k.coord.cn
+    if kwargs.has generic then return .error .typeError   -- "duplicate coordinates (through momentum-aliases)"
+    kwargs := kwargs.set generic v
   if kwargs.isEmpty && !other then return .error .typeError   -- "must give Azimuthal …"
   if other then return .error .typeError
   let g := kwargs.get
